@@ -50,11 +50,11 @@ KNOWN_OBS = 'observable annotation without a measurement target'
 
 # ----------------------------------------------------------------------------------------- generators
 def gen_detector_args(rng):
-    last = rng.choice([None, 0, 1, 2, 3, 5, 8]) if rng.random() < 0.12 else rng.choice([1, 2, 3, 5, 8])
+    last = rng.choice([None, 0, 1, 2, 3, 5, 8]) if rng.random() < 0.06 else rng.choice([1, 2, 3, 5, 8])
     hi = last if last is not None else 3
 
     def tgt():
-        return rng.randint(0, hi) if rng.random() < 0.9 else hi + rng.randint(1, 2)    # sometimes in the future
+        return rng.randint(0, hi) if rng.random() < 0.97 else hi + rng.randint(1, 2)    # sometimes in the future
     branch = rng.choice(['none', 'm', 'm', 'mr', 'mr', 'ms', 'msr', 'msrs', 'msrs', 's_only', 'r_only'])
     m = s = r = so = None
     if 'm' in branch and branch not in ('s_only', 'r_only'):
@@ -62,9 +62,9 @@ def gen_detector_args(rng):
     if branch in ('ms', 'msr', 'msrs', 's_only'):
         s = tgt()
     if branch in ('mr', 'msr', 'msrs', 'r_only'):
-        r = rng.choice([1, 1, 2, 3, 0, -1]) if rng.random() < 0.3 else rng.choice([1, 2, 3])
+        r = rng.choice([1, 1, 2, 3, 0, -1]) if rng.random() < 0.1 else rng.choice([1, 2, 3])
     if branch == 'msrs' or rng.random() < 0.08:
-        so = rng.choice([1, 2, 0, -1]) if rng.random() < 0.3 else rng.choice([1, 2])
+        so = rng.choice([1, 2, 0, -1]) if rng.random() < 0.1 else rng.choice([1, 2])
     return [last, m, s, r, so]
 
 
@@ -92,7 +92,7 @@ def gen_leaf(rng, nq, n_prev, p_obs_none):
         cmd['a'] = gen_detector_args(rng)
     elif name == 'LogicalObservableOperation':
         last = rng.choice([0, 1, 2, 3, 5])
-        main = rng.randint(0, last) if rng.random() < 0.92 else last + 1
+        main = rng.randint(0, last) if rng.random() < 0.97 else last + 1
         if rng.random() < p_obs_none:
             last, main = rng.choice([(None, None), (None, main), (last, None)])
         cmd['a'] = [last, main]
@@ -178,7 +178,7 @@ def corpus():
 
 
 def gen_cases(rng, tier):
-    n = 420 if tier == 'quick' else 4000
+    n = 900 if tier == 'quick' else 6000
     cases = []
     for i in range(n):
         nq = rng.randint(1, 4)
@@ -279,9 +279,31 @@ def _drop(prog, i):
     return out
 
 
+def _inline(prog, i):
+    """replace the block at position i (repetition count 1) by its body, repairing sibling references"""
+    body = [{k: v for k, v in c.items() if k != 'rel'} for c in prog[i]['body']]
+    shift = len(body) - 1
+    out = []
+    for j, c in enumerate(prog):
+        if j == i:
+            out += body
+            continue
+        c = dict(c)
+        if 'rel' in c:
+            if c['rel'][0] == i:
+                del c['rel']
+            elif c['rel'][0] > i:
+                c['rel'] = [c['rel'][0] + shift, c['rel'][1]]
+        out.append(c)
+    return out
+
+
 def _variants(prog):
     for i, c in enumerate(prog):
         yield _drop(prog, i)
+    for i, c in enumerate(prog):
+        if 'body' in c and reps_of(c) == 1:
+            yield _inline(prog, i)
     for i, c in enumerate(prog):
         if 'body' in c:
             if reps_of(c) > 1:
